@@ -1,4 +1,5 @@
 import Pyunicorn.Model.SimilarityHilbert
+import Pyunicorn.Model.SimilarityNumeric
 import Pyunicorn.Generated.StructC09
 /-!
 # Interpreter for the method scripts regenerated from the source (C09, round 3) — core Lean only
@@ -67,6 +68,15 @@ def quantile (steps : List Stmt) (S : Sim) (N k : Nat) : Option Rat :=
     l[min k (l.length - 1)]?
   | _ => none
 
+/-- `link_density_function(n_bins)` as the generated steps describe it: histogram of **all** stored
+similarities, conversion, normalisation, allocation, `out[i] = hist[:i].sum()`, return;
+`edges` = the bin edges `np.histogram` returns -/
+def ldfRun (steps : List Stmt) (S : Sim) (N : Nat) (edges : List Rat) (n : Nat) : Option (List Rat) :=
+  match steps with
+  | [.histogramAll, .histToFloat, .histNormalise, .allocResult, .cumulativeLoop, .returnLdf] =>
+    some (linkDensityFunction S N edges n)
+  | _ => none
+
 def setThresholdOf (hil : Bool) : List Stmt := if hil then hilbertSetThreshold else setThreshold
 
 def mask (fr : Frame) : Frame :=
@@ -119,6 +129,8 @@ def execStmt (call : List Stmt → Frame → Option Frame) (hil : Bool) (fr : Fr
   -- steps of `threshold_from_link_density` are interpreted by `quantile`; anything the
   -- translator did not recognise cannot be executed
   | .select _ | .sortAscending | .indexQuantile | .returnThreshold | .other _ => none
+  -- steps of `link_density_function` are interpreted by `ldfRun`
+  | .histogramAll | .histToFloat | .histNormalise | .allocResult | .cumulativeLoop | .returnLdf => none
 
 def execList (call : List Stmt → Frame → Option Frame) (hil : Bool) :
     List Stmt → Frame → Option Frame
